@@ -5,17 +5,17 @@
 //! over the real `flume`.
 use super::*;
 
-static mut SEQS: [i64; 3] = [0; 3];
-static mut VALS: [u8; 3] = [0; 3];
-static mut N: usize = 0;
+static mut SEQS: crate::verif_env::Ghost<[i64; 3]> = crate::verif_env::ghost(5, [0; 3]);
+static mut VALS: crate::verif_env::Ghost<[u8; 3]> = crate::verif_env::ghost(6, [0; 3]);
+static mut N: crate::verif_env::Ghost<usize> = crate::verif_env::ghost(7, 0);
 
 fn serve(message: ActorMessage) {
     if let ActorMessage::Get(_, ResponseSender::Mutable(tx)) = message {
-        let n = unsafe { N };
+        let n = unsafe { N.v };
         let mut i = 0;
         while i < 3 {
             if i < n {
-                let (seq, val) = unsafe { (SEQS[i], VALS[i]) };
+                let (seq, val) = unsafe { (SEQS.v[i], VALS.v[i]) };
                 let item = MutableItem::new_signed_unchecked([0; 32], [0; 64], &[val], seq, None);
                 let _ = tx.send(item);
             }
@@ -35,9 +35,9 @@ fn scenario(n: usize) {
     let seqs: [i64; 3] = kani::any();
     let vals: [u8; 3] = kani::any();
     unsafe {
-        N = n;
-        SEQS = seqs;
-        VALS = vals;
+        N.v = n;
+        SEQS.v = seqs;
+        VALS.v = vals;
     }
     let (tx, rx) = flume::unbounded::<ActorMessage>();
     #[cfg(verif_replay)]
@@ -55,7 +55,6 @@ fn scenario(n: usize) {
     let _ = actor.join();
     if n == 0 {
         assert!(r.is_none(), "C16 None only if nothing was delivered");
-        kani::cover!(true);
     } else {
         // reference: maximum seq; among those the greatest value
         let mut best = 0usize;
@@ -98,6 +97,8 @@ fn scenario(n: usize) {
 fn c16_o1a_most_recent_n01() {
     let n: usize = if kani::any() { 0 } else { 1 };
     scenario(n);
+    kani::cover!(n == 0);
+    kani::cover!(n == 1);
 }
 
 //@ ob: C16.O1b
